@@ -264,6 +264,60 @@ def run(repo, rep, tier):
                         rep.finding("R17.4", uc, cl, f"`{ast.unparse(cl)[:90]}` copies only the fields that satisfy `{ast.unparse(filt[0])[:40]}` into the "
                                     f"evaluation namespace: a string expression that refers to one of the other fields raises NameError (or sees a "
                                     f"pre-loaded name) where the equivalent Python function reads the field", stmt="record fields filtered before evaluation")
+    # the pre-loaded names are complete: all public names of math (functions AND constants: pi, e, tau, inf, nan) reach the namespace;
+    # the only filter that keeps them all is a leading-underscore test on the key
+    for inner in ast.walk(uc.node):
+        if not (isinstance(inner, ast.FunctionDef) and inner is not uc.node):
+            continue
+        dparam = inner.args.args[0].arg if inner.args.args else None
+        scopes = [inner]
+        for cl in ast.walk(inner):
+            if isinstance(cl, ast.Call):
+                fn0 = cl.func
+                tgt0 = None
+                if isinstance(fn0, ast.Attribute) and isinstance(fn0.value, ast.Name):
+                    k0 = um.classes.get(fn0.value.id) or (ufc if fn0.value.id in ("self", "cls") else None)
+                    tgt0 = k0.methods.get(fn0.attr) if k0 is not None else None
+                elif isinstance(fn0, ast.Name):
+                    tgt0 = um.functions.get(fn0.id)
+                if tgt0 is not None and tgt0.node is not uc.node:
+                    scopes.append(tgt0.node)
+        if any(isinstance(cl, ast.Call) and isinstance(cl.func, ast.Name) and cl.func.id == "eval" for cl in ast.walk(inner)):
+            loads = any((isinstance(x, ast.Attribute) and x.attr == "__dict__" and ast.unparse(x.value) == "math") or (
+                isinstance(x, ast.Call) and isinstance(x.func, ast.Name) and x.func.id in ("vars", "dir") and x.args and ast.unparse(x.args[0]) == "math")
+                for sc0 in scopes for x in ast.walk(sc0))
+            r4.ob(loads, "the evaluation namespace is pre-loaded with the names of math")
+            if not loads:
+                rep.finding("R17.4", uc, inner, "the evaluating function no longer pre-loads the names of `math` into the namespace: `sqrt(x)`, `pi` ... in a "
+                            "string expression raise NameError where the equivalent Python function evaluates", stmt="math names not pre-loaded")
+        for comp in [x for sc0 in scopes for x in ast.walk(sc0)]:
+            if not isinstance(comp, (ast.DictComp, ast.GeneratorExp, ast.ListComp)):
+                continue
+            srcs = [g0 for g0 in comp.generators if any(isinstance(x, ast.Attribute) and x.attr == "__dict__" and ast.unparse(x.value) in ("math", "np", "numpy")
+                                                         for x in ast.walk(g0.iter)) or any(
+                isinstance(x, ast.Call) and isinstance(x.func, ast.Name) and x.func.id in ("vars", "dir") and x.args and ast.unparse(x.args[0]) == "math" for x in ast.walk(g0.iter))]
+            for g0 in srcs:
+                keyname = None
+                t = g0.target
+                if isinstance(t, ast.Tuple) and t.elts and isinstance(t.elts[0], ast.Name):
+                    keyname = t.elts[0].id
+                elif isinstance(t, ast.Name):
+                    keyname = t.id
+                for c0 in g0.ifs:
+                    tst = c0
+                    neg = False
+                    if isinstance(tst, ast.UnaryOp) and isinstance(tst.op, ast.Not):
+                        tst, neg = tst.operand, True
+                    harmless = (neg and isinstance(tst, ast.Call) and isinstance(tst.func, ast.Attribute) and tst.func.attr == "startswith"
+                                and isinstance(tst.func.value, ast.Name) and tst.func.value.id == keyname and len(tst.args) == 1
+                                and isinstance(tst.args[0], ast.Constant) and isinstance(tst.args[0].value, str) and tst.args[0].value
+                                and set(tst.args[0].value) == {"_"})
+                    r4.ob(harmless, f"pre-loaded names `{ast.unparse(g0.iter)[:40]}` filtered only by a leading-underscore test")
+                    if not harmless:
+                        rep.finding("R17.4", uc, c0, f"the names pre-loaded from `{ast.unparse(g0.iter)[:40]}` are filtered by `{ast.unparse(c0)[:50]}`: public names "
+                                    f"that fail the test (the constants pi, e, tau, inf, nan are not callable, for one) are missing from the evaluation "
+                                    f"namespace, so a string expression using them raises NameError (or takes the name for the datum variable) where the "
+                                    f"equivalent Python function evaluates", stmt="pre-loaded names filtered")
     # the single free variable of a string expression on a bare datum: every name of the code object that the namespace does not
     # provide - nothing else may be taken out (a datum variable called like a builtin, `sum`, `int`, ..., is still the variable)
     for inner in ast.walk(uc.node):
@@ -632,6 +686,42 @@ def wrapper_rules(repo, rep, r3, um):
     derived = [n for n in walk_local_stmt(init.node) if isinstance(n, ast.Assign) and any(
         isinstance(t, ast.Attribute) and t.attr == namep and isinstance(t.value, ast.Name) and t.value.id == sn0 for t in n.targets)
         and not (isinstance(n.value, ast.Name) and n.value.id == namep)]
+    # an explicit name always wins: every store of a DERIVED name (anything but the parameter itself) is taken only when no name was given
+    pm0 = {}
+    for n in ast.walk(init.node):
+        for ch in ast.iter_child_nodes(n):
+            pm0[ch] = n
+
+    def _is_none_test(t, positive=True):
+        """conjuncts of `t` (taken as true when positive) that establish `name is None` / `self.name is None`"""
+        if isinstance(t, ast.BoolOp) and isinstance(t.op, ast.And) and positive:
+            return any(_is_none_test(v, True) for v in t.values)
+        if isinstance(t, ast.BoolOp) and isinstance(t.op, ast.Or) and not positive:
+            return any(_is_none_test(v, False) for v in t.values)
+        if isinstance(t, ast.UnaryOp) and isinstance(t.op, ast.Not):
+            return _is_none_test(t.operand, not positive)
+        if isinstance(t, ast.Compare) and len(t.ops) == 1 and isinstance(t.comparators[0], ast.Constant) and t.comparators[0].value is None:
+            subj = ast.unparse(t.left)
+            if subj in (namep, f"{sn0}.{namep}"):
+                return isinstance(t.ops[0], ast.Is if positive else ast.IsNot) or isinstance(t.ops[0], ast.Eq if positive else ast.NotEq)
+        return False
+
+    for d in derived:
+        guarded = False
+        cur = d
+        while cur in pm0 and not guarded:
+            par = pm0[cur]
+            if isinstance(par, ast.If):
+                if any(x is cur for x in par.body):
+                    guarded = _is_none_test(par.test, True)
+                elif any(x is cur for x in par.orelse):
+                    guarded = _is_none_test(par.test, False)
+            cur = par
+        r3.ob(guarded, f"UserFcn.__init__: derived name `{norm(d)[:50]}` only without an explicit name")
+        if not guarded:
+            rep.finding("R17.3", init, d, f"`{norm(d)[:70]}` stores a name derived from the expression on a path where an explicit `{namep}` may have been given: "
+                        f"named(n, f) of such an expression comes out under the derived name, so named wrappers with different names are equal and "
+                        f"the order of named/cached/serializable matters", stmt=f"derived name overrides the explicit one: {norm(d)[:40]}")
     if guard is not None and derived:
         gst, gtest = guard
         txt = ast.unparse(gtest)
